@@ -159,7 +159,9 @@ pub fn run(stim: &Value, rec: &Rec) {
         }
         let svc = sb.build();
         let mut cg = tonic_build::CodeGenBuilder::new();
-        cg.emit_package(o["emit_package"].as_bool().unwrap_or(true)).use_arc_self(o["arc_self"].as_bool().unwrap_or(false)).generate_default_stubs(o["default_stubs"].as_bool().unwrap_or(false))
+        // opts.leave_default: an option whose value is the builder's documented default (emit_package = true) is not set at all
+        if !(o["leave_default"].as_bool().unwrap_or(false) && o["emit_package"].as_bool().unwrap_or(true)) { cg.emit_package(o["emit_package"].as_bool().unwrap_or(true)); }
+        cg.use_arc_self(o["arc_self"].as_bool().unwrap_or(false)).generate_default_stubs(o["default_stubs"].as_bool().unwrap_or(false))
           .disable_comments(no_comments.iter().cloned().collect());
         let mut buf = String::new();
         if o["client"].as_bool().unwrap_or(true) { buf.push_str(&cg.generate_client(&svc, "").to_string()); buf.push('\n'); }
